@@ -20,7 +20,7 @@ from ..simfs import ROOT, SimFS
 
 PROPERTY = "C03"
 LEVEL = "exploration"
-QUICK_RUNS = 12000
+QUICK_RUNS = 30000
 THOROUGH_RUNS = 400_000
 QUICK_BUDGET_S = 100
 BATCH = 100
